@@ -1,7 +1,61 @@
-"""C18 — vectorised byte-search primitives equal their scalar definitions (Go level)."""
+"""C18 — vectorised byte-search primitives equal their scalar definitions.
+
+Two parts: (1) Go level through gosymx (pure-Go SWAR/generic implementations and the
+dispatch code), (2) assembly level through asmsym (the AVX2 kernels parsed from the .s
+files of /repo: symbolic contents, symbolic LENGTH, every load proved inside the slice).
+"""
+import json
+import os
+import subprocess
+import sys
+import tempfile
+
 from props.common import mk, bounds
 
-ASSUMPTIONS = ["Go-level part: exported simd functions with CPU feature flags false (pure-Go SWAR/generic implementations), haystack contents, needles and table bits symbolic, lengths as listed; the AVX2/SSSE3 assembly kernels are NOT covered by this Go-level check"]
+VERIF = os.path.dirname(os.path.dirname(os.path.abspath(__file__)))
+
+
+def extra_check(tier, only=None):
+    """Assembly level: run asmsym over the simd kernels. Returns (violations, info)."""
+    lmax = 72 if tier == "quick" else 136
+    shifts = [0] if tier == "quick" else [0, 1, 31]
+    kernels = []
+    vios = []
+    tot = {"paths": 0, "queries": 0, "loads": 0, "solver_s": 0.0}
+    for sh in shifts:
+        with tempfile.NamedTemporaryFile(suffix=".json", delete=False) as tf:
+            out = tf.name
+        cmd = ["python3-vt", os.path.join(VERIF, "asmsym", "kernels.py"), "--lmax", str(lmax), "--shift", str(sh), "--json", out]
+        if only:
+            cmd += ["--only", only.split("[")[0]]
+        p = subprocess.run(cmd, capture_output=True, text=True)
+        try:
+            res = json.load(open(out))
+        except Exception:
+            res = []
+            vios.append({"id": "asm", "item": {"asm": True, "kernel": "(all)"}, "model": {}, "msg": "asmsym did not produce results: " + p.stderr[-400:], "source": "asmsym", "pc": "true"})
+        finally:
+            os.unlink(out)
+        for r in res:
+            r["base_shift"] = sh
+            kernels.append({k: r[k] for k in r if k != "mnemonics"})
+            tot["paths"] += r.get("paths", 0)
+            tot["queries"] += r.get("queries", 0)
+            tot["loads"] += r.get("loads_checked", 0)
+            tot["solver_s"] += r.get("solver_s", 0.0)
+            if r.get("violations"):
+                vios.append({"id": "asm|%s|shift%d" % (r["kernel"], sh), "item": {"asm": True, "kernel": r["kernel"], "Lmax": lmax, "shift": sh}, "model": {},
+                             "msg": "C18 assembly kernel %s: %s" % (r["kernel"], r["violations"][0]), "snaps": {"kind": r.get("kind")}, "source": "asmsym", "pc": "true"})
+    incon = [k["kernel"] for k in kernels if not k.get("ok") and not k.get("violations")]
+    info = {"engine": "asmsym (z3 Python API)", "Lmax": lmax, "base_shifts": shifts, "kernels": kernels, "paths": tot["paths"], "queries": tot["queries"],
+            "loads_proved_in_bounds": tot["loads"], "solver_s": round(tot["solver_s"], 1), "inconclusive_kernels": incon,
+            "obligations": "for every length 0..Lmax (symbolic), every content and needle: each load inside [base, base+len); no store outside result slots / own frame; result == scalar definition on every path; path conditions cover all inputs (closure query unsat)"}
+    return vios, info
+
+ASSUMPTIONS = [
+    "Go-level part: exported simd functions with CPU feature flags false (pure-Go SWAR/generic implementations), haystack contents, needles and table bits symbolic, lengths as listed",
+    "assembly part: the 8 kernels of simd/*.s (memchr, memchr2, memchr3, memchrPair[offset 1,2], memchrWord, memchrNotWord, memchrDigit, isASCII) for EVERY length 0..Lmax with symbolic contents/needles; instruction semantics of the ~45 mnemonics used are the executor's model (asmsym.py) of the Intel SDM; the dispatch thresholds in the Go wrappers are covered by reading only (flags are false in gosymx)",
+]
 
 
 SWAR = ["Memchr", "Memchr2", "Memchr3", "IsASCII", "FirstNonASCII"]
